@@ -6,11 +6,13 @@
 //    (See accompanying file LICENSE_1_0.txt or copy at
 //          https://www.boost.org/LICENSE_1_0.txt)
 
+#include <algorithm>
 #include <cstddef>
 #include <functional>
 #include <iostream>
 #include <iterator>
 #include <limits>
+#include <map>
 #include <set>
 #include <vector>
 
@@ -90,14 +92,19 @@ namespace parmcb {
                 /*
                  * Heuristic in case number of signed edges is small compared to the number of vertices.
                  */
+                // All ranks must agree on the enumeration of the signed edges: order them by their
+                // index in the forest index (the order of std::set<Edge> depends on the addresses of
+                // the edges, which differ from process to process).
+                std::vector<Edge> signed_edges_as_vector(signed_edges.begin(), signed_edges.end());
+                std::sort(signed_edges_as_vector.begin(), signed_edges_as_vector.end(),
+                        [&forest_index](const Edge &a, const Edge &b) {
+                            return forest_index(a) < forest_index(b);
+                        });
                 std::map<Edge, std::set<Edge>> hidden_edges_per_edge;
-                std::vector<Edge> signed_edges_as_vector;
-                std::set<Edge> tmp_signed_edges = signed_edges;
-                while (!tmp_signed_edges.empty()) {
-                    auto bit = tmp_signed_edges.begin();
-                    hidden_edges_per_edge.insert(std::make_pair(*bit, tmp_signed_edges));
-                    signed_edges_as_vector.push_back(*bit);
-                    tmp_signed_edges.erase(bit);
+                for (std::size_t i = 0; i < signed_edges_as_vector.size(); i++) {
+                    hidden_edges_per_edge.insert(
+                            std::make_pair(signed_edges_as_vector[i],
+                                    std::set<Edge>(signed_edges_as_vector.begin() + i, signed_edges_as_vector.end())));
                 }
 
                 std::vector<Edge> local_signed_edges_as_vector;
